@@ -731,6 +731,22 @@ main(int argc, char ** argv)
 			answer(d, 32);
 			free(fk); free(fm); free(fd); free(fc);
 			vh_free(k); vh_free(m);
+		} else if (op[0] == 'P') {
+			/* P <al> <passwd> <salt> <c> <dkLen>: PBKDF2_SHA256 */
+			size_t plen, slen;
+			uint8_t * pw = vh_tok_hex(&L, 2, &plen);
+			uint8_t * sl = vh_tok_hex(&L, 3, &slen);
+			uint64_t c = vh_tok_u(&L, 4);
+			size_t dk = (size_t)vh_tok_u(&L, 5);
+			void * fp, * fs, * fd;
+			uint8_t * px = place(pw, plen, (al * 5 + 1) & 15, &fp);
+			uint8_t * sx = place(sl, slen, al, &fs);
+			uint8_t * d = vh_exact(NULL, dk, &fd);
+
+			PBKDF2_SHA256(px, plen, sx, slen, c, d, dk);
+			answer(d, dk);
+			free(fp); free(fs); free(fd);
+			vh_free(pw); vh_free(sl);
 		} else if (op[0] == 'C') {
 			size_t mlen, np, i, off = 0;
 			uint8_t * m = vh_tok_hex(&L, 2, &mlen);
